@@ -6,6 +6,12 @@ package statsd
 
 // One datagram: every line is parsed or counted bad; nothing panics. len(msg) < 2^32 is what the
 // lexer needs (datagrams are at most 65535 bytes).
+// logBadLineRateLimited (C03): logging a rejected line cannot crash the parser, whatever the line holds.
+//@ func (*DatagramParser).logBadLineRateLimited
+//@   requires dp != nil && dp.badLineLimiter != nil
+//@   modifies everything
+//@   preserves lexer.Lexer, pool.MetricPool, statsd.DatagramParser
+
 //@ func (*DatagramParser).handleDatagram
 //@   requires dp != nil && l != nil && l.MetricPool != nil && 0 <= l.MetricPool.estimatedTags && l.MetricPool.estimatedTags <= 1000000 && dp.handler != nil && dp.logger != nil && dp.badLineLimiter != nil
 //@   requires len(msg) < 4294967296
@@ -717,10 +723,11 @@ package statsd
 //@   preserves statsd.HttpForwarderHandlerV2
 //@ func (*HttpForwarderHandlerV2).post
 //@   requires hfh != nil && hfh.logger != nil
+//@   ensures  [notify] calls(notifyFlush) == 0 && calls(NotifyFlush) == 0
 //@   callsite post requires hfh.messagesSent == old(hfh.messagesSent) && hfh.messagesDropped == old(hfh.messagesDropped) && hfh.messagesInvalid == old(hfh.messagesInvalid)
 //@   callsite Info requires hfh.messagesDropped == wrapu64(old(hfh.messagesDropped) + 1)
-//@   loop 1 invariant calls(post) >= 0 && post != nil && hfh.logger != nil && hfh.messagesSent == old(hfh.messagesSent) && hfh.messagesDropped == old(hfh.messagesDropped) && hfh.messagesInvalid == old(hfh.messagesInvalid) && hfh.messagesCreated == wrapu64(old(hfh.messagesCreated) + 1)
-//@   loop 2 invariant calls(post) >= 1 && hfh.messagesSent == wrapu64(old(hfh.messagesSent) + 1) && hfh.messagesDropped == old(hfh.messagesDropped) && hfh.messagesInvalid == old(hfh.messagesInvalid)
+//@   loop 1 invariant calls(notifyFlush) == 0 && calls(NotifyFlush) == 0 && calls(post) >= 0 && post != nil && hfh.logger != nil && hfh.messagesSent == old(hfh.messagesSent) && hfh.messagesDropped == old(hfh.messagesDropped) && hfh.messagesInvalid == old(hfh.messagesInvalid) && hfh.messagesCreated == wrapu64(old(hfh.messagesCreated) + 1)
+//@   loop 2 invariant calls(notifyFlush) == 0 && calls(NotifyFlush) == 0 && calls(post) >= 1 && hfh.messagesSent == wrapu64(old(hfh.messagesSent) + 1) && hfh.messagesDropped == old(hfh.messagesDropped) && hfh.messagesInvalid == old(hfh.messagesInvalid)
 //@   ensures  [outcome] hfh.messagesSent == old(hfh.messagesSent) || hfh.messagesSent == wrapu64(old(hfh.messagesSent) + 1)
 //@   ensures  [outcome] hfh.messagesDropped == old(hfh.messagesDropped) || hfh.messagesDropped == wrapu64(old(hfh.messagesDropped) + 1)
 //@   ensures  [outcome] hfh.messagesInvalid == old(hfh.messagesInvalid) || hfh.messagesInvalid == wrapu64(old(hfh.messagesInvalid) + 1)
